@@ -182,7 +182,7 @@ CHECKS['C17'] = dict(
    text='The complete observation vector of the machine is the modelled state; in the states fresh / fresh+Reset / history+Reset the '
         'specification is in the single state FreshReset (a constant for everything but MMIO read-back). Recorded executions on '
         'polluted heaps are validated by TLC, which computes the differing observation groups; the same history replayed after Reset '
-        'and on a fresh instance must coincide (including the hidden AHBM burst FIFOs, the external-memory traffic and the ownership of the DSP memory); every other instance is created through the C binding, operator new hands out junk-filled memory, a crash is a violation; Teakra::Reset between slices of guest programs must equal System.tla's reset; two processes must produce identical streams; a component-level reset model is checked '
+        'and on a fresh instance must coincide (including the hidden AHBM burst FIFOs, the external-memory traffic and the ownership of the DSP memory); every other instance is created through the C binding, operator new hands out junk-filled memory, a crash is a violation; Teakra::Reset between slices of guest programs must equal the reset of System.tla; two processes must produce identical streams; a component-level reset model is checked '
         'exhaustively (what Reset covers vs what C17 demands).',
    design_ref='5.17',
    note='Trusted: TLC, CommunityModules, g++. Histories are sampled. One known finding (MMIO backing storage survives Reset) is listed '
